@@ -81,9 +81,21 @@ def params_for(model, pv, inst=None):
     elif model == 'Vaccinate':
         d = {ep.Opinion.P_AFFECTED: pv['pSeed'], ep.Opinion.P_AFFECT: pv['pInfect'], ep.Opinion.P_STIFLE: pv['pRemove'],
              ep.Vaccinate.P_VACCINATE: pv['pAux']}
-    if inst is not None and model not in ('SEIR', 'Opinion', 'Vaccinate'):
+    if inst is not None and model != 'SEIR':
         d = {k + '@' + inst: v for k, v in d.items()}
     return d
+
+
+def add_decoys(params):
+    """a named instance is given its parameters under decorated names; where nobody else uses the plain name it now
+    carries ANOTHER, non-zero value (meant for somebody else): the three-level rule must pick the decorated one, a
+    decorated 0 included"""
+    for k, v in list(params.items()):
+        if '@' in k and isinstance(v, (int, float)) and not isinstance(v, bool):
+            plain = k.split('@')[0]
+            if plain not in params:
+                params[plain] = 0.8125 if v != 0.8125 else 0.4375
+    return params
 
 
 def make_graph(desc):
@@ -148,11 +160,15 @@ def gen_case(rnd, model=None, dynamics=None, **kw):
         case['vi_post'] = rnd.choice([0.125, 0.25, 0.5, 1.0])
     if rnd.random() < 0.15:
         case['used'] = True          # the prototype is the network an earlier experiment left behind
+    if model in ('SIR', 'SEIR', 'SIS', 'SIRS', 'SIR_FixedRecovery') and rnd.random() < 0.15:      # not Opinion: the stored orientation of a spreader-spreader pair depends on the placing order (known finding, C01)
+        # index cases placed by an overridden initialCompartments(): an edge's two ends and one more node
+        es = case['graph']['edges']
+        case['reseed'] = (list(rnd.choice(es)) if es else []) + [rnd.choice(case['graph']['nodes'])]
     nameable = ('SIR', 'SIS', 'SIRS', 'SIR_FixedRecovery', 'SIS_FixedRecovery')
     if model in nameable and rnd.random() < 0.25:
         # two named instances of disease models on one network (the whole-run Coq tie covers single instances only)
         case['inst'] = 'a'
-        case['second'] = {'model': rnd.choice(nameable), 'inst': 'b', 'pv': gen_params(rnd, dynamics)}
+        case['second'] = {'model': rnd.choice(nameable), 'inst': 'b', 'pv': gen_params(rnd, dynamics), 'plain': rnd.random() < 0.4}
     return case
 
 
@@ -184,6 +200,23 @@ def vi_post_cases(rnd, n):
         c['pv']['pSeed'] = rnd.choice([0.25, 0.5])
         c['seq'] = rnd.random() < 0.2
         c['second'] = None
+        out.append(c)
+    return out
+
+
+def fr_rerun_cases(rnd, n):
+    """the fixed-recovery models (whose build() does not go through Process.build()) run twice on the same objects, the
+    earlier run cut off by its time limit with infections still going on"""
+    out = []
+    for i in range(n):
+        c = gen_case(rnd, model=rnd.choice(['SIR_FixedRecovery', 'SIS_FixedRecovery']), kinds=['complete', 'star', 'random', 'cycle'])
+        c['prerun'] = True
+        c['pv']['tInf'] = rnd.choice([1.5, 2.0])
+        c['pv']['pInfect'] = rnd.choice([0.125, 0.25, 0.5])
+        c['pv']['pSeed'] = rnd.choice([0.25, 0.5])
+        c['maxtime'] = rnd.choice([1.5, 2.0, 3.0])
+        c['second'] = None
+        c.pop('used', None)
         out.append(c)
     return out
 
@@ -226,6 +259,17 @@ def run_case(case):
                 for n in list(net.nodes()):
                     if net.nodes[n][self.COMPARTMENT] == self.INFECTED:
                         self.postEvent(T_post, n, self.remove, name=self.REMOVED)
+    if case.get('reseed') and model in ('SIR', 'SEIR', 'SIS', 'SIRS', 'SIR_FixedRecovery', 'Opinion'):
+        # the documented hook overridden: default seeding, then chosen index cases (neighbours among them) are placed again
+        base_cls, picks = cls, list(case['reseed'])
+
+        class cls(base_cls):
+            def initialCompartments(self):
+                super().initialCompartments()
+                target = spec(model)['I']
+                for n in picks:
+                    if n in self.network().nodes():
+                        self.changeInitialCompartment(n, target)
     try:
         proc = cls(inst) if inst is not None else cls()
     except TypeError:
@@ -243,9 +287,11 @@ def run_case(case):
     proc2 = None
     if second:
         proc2 = models()[second['model']](second['inst'])
-        params.update(params_for(second['model'], second['pv'], second['inst']))
+        # the second instance reads its parameters under its own decorated names, or (plain) falls back to the shared plain names
+        params.update(params_for(second['model'], second['pv'], None if (second.get('plain') and inst is not None) else second['inst']))   # (only when the first instance keeps to its decorated names: plain names are shared)
         procs = procs + [proc2]
         top = ProcessSequence(procs)
+    add_decoys(params)
     top.setMaximumTime(case['maxtime'])
     dcls = ep.StochasticDynamics if case['dynamics'] == 'stochastic' else ep.SynchronousDynamics
     dyn = dcls(top, g)
@@ -274,7 +320,10 @@ def run_case(case):
             if state['posted'] > 0 or not registered:
                 member = None
             else:
-                member = (e in locus)
+                # the locus of this name that the dynamics holds NOW (an event left over from an earlier run would carry
+                # a locus object that nothing updates any more)
+                live = dyn.loci().get(locus.name()) if hasattr(locus, 'name') else None
+                member = (e in locus) and (live is None or e in live)
             net = dyn.network()
             if isinstance(e, tuple):
                 ends = [net.nodes[x].get(compvar) if x in net else '<gone>' for x in e]
@@ -453,6 +502,13 @@ def direct_c05(case, obs):
     if obs['exception']:
         return [{'signature': 'run-raised:' + case['model'] + ':' + obs['exception'].split(':')[0], 'detail': obs['exception']}]
     v = []
+    # an event registered on a locus that the dynamics does not hold (left over from an earlier run, say) is called on
+    # elements of a set that nothing keeps up to date
+    for pi, regs in (obs.get('registration') or {}).items():
+        for r in regs:
+            if r.get('li') == -1 and r.get('fn') != 'observe':
+                v.append({'signature': 'event-registered-on-a-locus-the-dynamics-does-not-hold:' + case['model'], 'detail': r})
+                break
     sp = spec(case['model'])
     for en in obs['entries']:
         if en['member'] is False:
@@ -762,6 +818,7 @@ def views(case, obs):
         o['snaps'] = [dict(s, comps=s['comps_by'][pi]) for s in obs['snaps']]
         o['final'] = dict(obs['final'], comps=obs['final']['comps_by'][pi])
         o['registration'] = {pi: obs['registration'].get(pi, [])}
+        o['primary_pi'] = pi
         # results() keys are undecorated compartment names: a later instance of a model with the same compartments wins (C11)
         o['results_overwritten'] = set(spec(case['second']['model'])['comps']) if pi == obs['primary_pi'] else set()
         out.append((c, o))
